@@ -84,7 +84,9 @@ func c02Gossip(r *rng, id string) {
 // c02Stir: gossip, push/pull and probe ticks on three goroutines at once in a small cluster (they all pick
 // their targets from the member list under a read lock): afterwards the node still lists itself and
 // every member exactly once.
-func c02Stir(r *rng, id string) {
+func c02Stir(r *rng, id string) { stirLeg("C02", r, id) }
+
+func stirLeg(prop string, r *rng, id string) {
 	n, err := newCnode(ccfg{name: "n0"})
 	if err != nil {
 		return
@@ -139,7 +141,7 @@ func c02Stir(r *rng, id string) {
 		}
 	}
 	n.tr.take()
-	emit("C02 stir id=%s peers=%d missing=%d dup=%d self=%d", id, peers, missing, dup, self)
+	emit("%s stir id=%s peers=%d missing=%d dup=%d self=%d", prop, id, peers, missing, dup, self)
 }
 
 // C07: events against Members() over random histories of every operation kind.
